@@ -217,6 +217,30 @@ func runC19(c *Ctx, r *Rec) {
 		}
 	}
 	r.floor("D3-write-once", 1)
+	// the fields of a class object are its constants: every instance and every goroutine reads
+	// them without a lock, so they are set while the object is built and never again
+	{
+		fw := c.fieldWrites()
+		for _, n := range c.classTypes() {
+			st := structOf(n)
+			if st == nil {
+				continue
+			}
+			role := c.roleOf(n.Obj().Pkg())
+			for i := 0; i < st.NumFields(); i++ {
+				f := st.Field(i)
+				if isSyncType(f.Type()) {
+					continue
+				}
+				construct := role + "." + n.Obj().Name() + "." + f.Name()
+				if ws := fw[f.Origin()]; len(ws) > 0 {
+					r.fail("D3-class-constants", construct, c.pos(ws[0].Pos), fmt.Sprintf("the class field %s is %s in %s after the class object was published: the object is shared by every instance and every goroutine, which read the field without a lock", f.Name(), ws[0].How, ws[0].In.Name.Name))
+				} else {
+					r.ok("D3-class-constants", construct, c.pos(f.Pos()), "set only while the class object is built")
+				}
+			}
+		}
+	}
 }
 
 // witnessOfPath: the terminal type of a reachability path (stable key for known findings).
